@@ -15,6 +15,8 @@
 //!   metric edge <now> <PM>                      Metric::from(PublishMetric)            -> Q(..)
 //!   metric host <verb> <seq> <ts> <L(Q..)>      payload -> host (ND|DD|NB|DB)          -> data/birth/err
 //!   metric pset <PS>                            payload PropertySet -> host PropertySet -> ok ps(..)|err
+//!   metric pdesc <PV>                           one step down from a received property value: PropertySet::try_from(value)
+//!                                               and Vec::<PropertySet>::try_from(value) -> set:<ok ps(..)|err> sets:<ok pl(..)|err>
 //!   metric e2e <who> <variant> <prevseq> <now> <L(P..)>   handle -> ... -> store       -> data ..
 //! Numbers are decimal, floats are IEEE bits, strings/bytes hex.
 use crate::common::*;
@@ -1827,6 +1829,59 @@ fn exec_in(w: &mut World, op: &str, out: &mut Out) -> String {
             }
             ans
         }
+        ["metric", "pdesc", pv] => {
+            let v = p_pval(&parse_tree(pv).expect("term")).expect("property value").expect("a value, not null");
+            let raw = pval_to_srad(&v);
+            let as_set = catch(std::panic::AssertUnwindSafe(|| PropertySet::try_from(PropertyValue::new(raw.clone()))));
+            let as_sets = catch(std::panic::AssertUnwindSafe(|| Vec::<PropertySet>::try_from(PropertyValue::new(raw.clone()))));
+            let a = match &as_set {
+                Err(_) => "panic".to_string(),
+                Ok(Err(())) => "err".to_string(),
+                Ok(Ok(_)) => String::new(),
+            };
+            let a = if let Ok(Ok(ps)) = as_set {
+                let pp: payload::PropertySet = ps.into();
+                format!("ok {}", show_pset(&pset_from_srad(&pp), true))
+            } else {
+                a
+            };
+            let b = match as_sets {
+                Err(_) => "panic".to_string(),
+                Ok(Err(())) => "err".to_string(),
+                Ok(Ok(l)) => format!(
+                    "ok {}",
+                    node("pl", l.into_iter().map(|ps| { let pp: payload::PropertySet = ps.into(); show_pset(&pset_from_srad(&pp), true) }).collect())
+                ),
+            };
+            // C19: untyped / mismatched nested sets are refused with an error, never a panic; a value of the
+            // other shape is refused; a well-formed nested set denotes its map
+            if a == "panic" || b == "panic" {
+                out.fail("C19:propset-malformed-refused", "nested-descend-panic", format!("{} -> set:{} sets:{}", op, a, b));
+            }
+            match &v {
+                PVal::Set(s0) => {
+                    let bad = spec_pset_malformed(s0);
+                    if bad != (a == "err") || b != "err" {
+                        out.fail("C19:propset-malformed-refused", "nested-set", format!("{} -> set:{} sets:{}", op, a, b));
+                    }
+                    if !bad && a != format!("ok {}", spec_pset_map(s0)) {
+                        out.fail("C19:propset-wellformed-map", "nested-set", format!("{} -> {} want {}", op, a, spec_pset_map(s0)));
+                    }
+                }
+                PVal::Sets(l0) => {
+                    let bad = l0.iter().any(spec_pset_malformed);
+                    if bad != (b == "err") || a != "err" {
+                        out.fail("C19:propset-malformed-refused", "nested-set-list", format!("{} -> set:{} sets:{}", op, a, b));
+                    }
+                }
+                _ => {
+                    if a != "err" || b != "err" {
+                        out.fail("C19:propset-malformed-refused", "scalar-as-set", format!("{} -> set:{} sets:{}", op, a, b));
+                    }
+                }
+            }
+            format!("set:{} sets:{}", a, b)
+        }
         ["metric", "e2e", who, variant, prevseq, now, l] => {
             let pms = p_list(l, p_pm).expect("publish metric list");
             let prevseq: u64 = prevseq.parse().unwrap();
@@ -2683,6 +2738,9 @@ pub fn run(args: &Args, out: &mut Out) -> &'static str {
             out.begin_case("metric new", "ok");
             for (_, s) in chunk {
                 line(out, &format!("metric pset {}", show_pset(s, false)));
+                // the same set one level down: as the value of a property, read by the user's descent
+                line(out, &format!("metric pdesc {}", show_pset(s, false)));
+                line(out, &format!("metric pdesc {}", node("pl", vec![show_pset(s, false)])));
             }
             out.nontrivial();
             out.count("propset-marker-table");
@@ -2698,6 +2756,18 @@ pub fn run(args: &Args, out: &mut Out) -> &'static str {
         }
         out.begin_case("metric new", "ok");
         line(out, &format!("metric pset {}", show_pset(&s, false)));
+        line(out, &format!("metric pdesc {}", show_pset(&s, false)));
+        if rng.chance(1, 2) {
+            let u2 = random_ups(&mut rng, 2, out);
+            let s2 = spec_encode_ups(&u2);
+            line(out, &format!("metric pdesc {}", node("pl", vec![show_pset(&s, false), show_pset(&s2, false)])));
+            line(out, &format!("metric pdesc {}", node("pl", vec![])));
+        }
+        if rng.chance(1, 8) {
+            for sc in ["i5", "l7", "b1", "s6162", "d0", "f0"] {
+                line(out, &format!("metric pdesc {}", sc));
+            }
+        }
         out.nontrivial();
         out.count("propset-random");
     }
